@@ -449,6 +449,7 @@ def check(chk):
 
     _total_validators(chk, repo, cv)
     _list_helpers(chk, repo)
+    _time_string_parsers(chk, repo)
 
     # ---------------------------------------------------------- SIB-6
     for tok, conv in (("ms", "string_to_ms"), ("template_ms", "string_to_ms"), ("secs", "string_to_secs"), ("template_secs", "string_to_secs")):
@@ -607,6 +608,17 @@ def _has_name(e):
     return any(isinstance(x, (ast.Name, ast.Attribute, ast.Subscript, ast.Call)) for x in ast.walk(e))
 
 
+def _time_string_parsers(chk, repo):
+    """TABLE-3 (use sites): wherever the repository parses a time string, the parser of the unit it needs is used directly; the result
+    is never rescaled by 1000 (the two parsers differ in what a bare number means)."""
+    from sa.helpers import rescaled_time_strings
+    bad, n = rescaled_time_strings(repo)
+    for f, x, t in bad:
+        chk.ob("TABLE-3", "a time string is parsed by the parser of the unit it is used in, never parsed in the other unit and rescaled", False, f.where(x),
+               detail="`%s`: a bare number changes its unit" % t, construct=f.ident, text="rescaled time string " + t)
+    chk.ob("TABLE-3", "time-string parser calls of the repository examined (%d)" % n, not bad and n >= 12, "mpf:1", nontrivial=False)
+
+
 def battery():
     from sa.battery import M
     Y = "mpf/config_spec.yaml"
@@ -646,6 +658,7 @@ def battery():
         M("enum checked case-insensitively but returned as written", CV, "        try:\n            item = item.lower()\n        except AttributeError:\n            pass\n\n        if item is None and \"none\" in enum_values:\n            return None\n        if str(item) in enum_values:\n            return str(item)", "        if item is None and \"none\" in enum_values:\n            return None\n        if str(item).lower() in enum_values:\n            return str(item)", "MEMBER-12"),
         M("enum yes/no literal mismatch", CV, "        if item is True and 'yes' in enum_values:\n            return 'yes'", "        if item is True and 'yes' in enum_values:\n            return 'true'", "MEMBER-12"),
         M("twin: enum value bound to a local first", CV, "        if str(item) in enum_values:\n            return str(item)", "        if str(item) in enum_values:\n            return str(item)  # member", None),
+        M("time string parsed in seconds and rescaled to ms", "mpf/devices/switch.py", "            ms = Util.string_to_ms(ev_time)", "            ms = int(Util.string_to_secs(ev_time) * 1000)", "TABLE-3"),
     ]
 
 
